@@ -84,6 +84,15 @@ def configs(tier, seed):
                             key = "cf/" + "+".join(f"{a}>{b}:{d}" for (a, b), d in zip(fs, fdims)) + f"/raise={int(raise_error)}/exc={exc}/verbose={int(verbose)}/nan={int(nan)}"
                             out.append(dict(h="check_flows", op="cf", key=key, procs=["sysenv", "p1", "p2"], flows=[list(p) for p in fs], fdims=fdims, stocks=["p1"],
                                             raise_error=raise_error, exc=exc, verbose=verbose, nan=nan))
+    # exception strings that are a proper substring of another (non-excepted) process / flow name
+    for fs in ([("p1", "p1b"), ("sysenv", "p1b")], [("sysenv", "p1"), ("p1b", "sysenv")], [("p1b", "sysenv")]):
+        for raise_error in (False, True):
+            for exc in ("proc_p1", "flow0", "none"):
+                for nan in (False, True):
+                    fdims = ["a", "t"][: len(fs)]
+                    key = "cf_sub/" + "+".join(f"{a}>{b}:{d}" for (a, b), d in zip(fs, fdims)) + f"/raise={int(raise_error)}/exc={exc}/nan={int(nan)}"
+                    out.append(dict(h="check_flows", op="cf", key=key, procs=["sysenv", "p1", "p1b"], flows=[list(p) for p in fs], fdims=fdims, stocks=["p1"],
+                                    raise_error=raise_error, exc=exc, verbose=False, nan=nan, short_names=True))
     return out
 
 
@@ -105,7 +114,7 @@ def _build(cfg, w, nan=False, fortran=False):
     procs = {p: Process(name=p, id=i) for i, p in enumerate(cfg["procs"])}
     flows, F = {}, {}
     for i, ((a, b), d) in enumerate(zip(cfg["flows"], cfg["fdims"])):
-        name = f"{a} => {b} #{i}"
+        name = f"{a} => {b} #{i}" if not cfg.get("short_names") else f"{a} => {b}"
         shape = tuple(LENS[l] for l in d)
         V = w.arr(f"f{i}", shape)
         if nan:
